@@ -329,7 +329,12 @@ pub struct SimConnector {
 
 impl ureq::TlsConnector for SimConnector {
     fn connect(&self, dns_name: &str, io: Box<dyn ureq::ReadWrite>) -> Result<Box<dyn ureq::ReadWrite>, ureq::Error> {
-        drop(io); // the real TCP connection to the dummy listener carried zero bytes
+        // the real TCP connection to the dummy listener carried zero bytes; abort it (RST) instead of closing it, so
+        // that the hundreds of thousands of such connections of a batch leave no TIME_WAIT sockets behind
+        if let Some(sock) = io.socket() {
+            crate::tcp::set_linger_zero(sock);
+        }
+        drop(io);
         let id = self.net.dial(dns_name);
         Ok(Box::new(MemTransport { net: self.net.clone(), id, baton: self.baton.clone() }))
     }
